@@ -1,4 +1,5 @@
 pub mod c01;
+pub mod c02;
 pub mod common;
 
 use crate::engine::PropertySpec;
@@ -6,8 +7,9 @@ use crate::engine::PropertySpec;
 pub fn spec(id: &str) -> Option<PropertySpec> {
     match id {
         "C01" => Some(c01::spec()),
+        "C02" => Some(c02::spec()),
         _ => None,
     }
 }
 
-pub const ALL: [&str; 1] = ["C01"];
+pub const ALL: [&str; 2] = ["C01", "C02"];
